@@ -163,4 +163,32 @@ def scale (c : Rat) (xs : Array Rat) : Array Rat := xs.map (fun v => c * v)
 def transpose2 (H W : Nat) (xs : Array Rat) : Array Rat :=
   tab (W * H) (fun p => get xs ((p % H) * W + p / H))
 
+/-! ## n-D indexing (vocabulary of the n-D theorems; `swapImg` is executed by the driver op `SWAP`
+and compared with `numpy.swapaxes`) -/
+
+/-- C-order flat index of the multi-index `ix` in an array of shape `sh` -/
+def flat : List Nat → List Nat → Nat
+  | _ :: rest, i :: is => i * rest.prod + flat rest is
+  | [], _ => 0
+  | _ :: _, [] => 0
+
+/-- pixel `ix` of the n-D image `xs` of shape `sh` -/
+def pxN (sh : List Nat) (xs : Array Rat) (ix : List Nat) : Rat := get xs (flat sh ix)
+
+/-- multi-index of the flat position `p` -/
+def unflat : List Nat → Nat → List Nat
+  | [], _ => []
+  | n :: rest, p => (p / rest.prod) % n :: unflat rest (p % rest.prod)
+
+/-- exchange entries `k` and `k+1` of a list (identity if the list is too short) -/
+def swapAt {α : Type} : Nat → List α → List α
+  | 0, a :: b :: l => b :: a :: l
+  | 0, l => l
+  | k + 1, a :: l => a :: swapAt k l
+  | _ + 1, [] => []
+
+/-- the image with axes `k`, `k+1` exchanged -/
+def swapImg (k : Nat) (sh : List Nat) (img : Array Rat) : Array Rat :=
+  tab sh.prod (fun p => pxN sh img (swapAt k (unflat (swapAt k sh) p)))
+
 end TrackpyV.Bandpass
